@@ -10,11 +10,17 @@ package http2
 // (also below the current number of open streams).
 // Oracles, per connection, from the server's side of the wire (independent frame reader):
 //   - ids of stream-opening HEADERS are odd and strictly increasing;
-//   - before every stream-opening HEADERS the number of streams open in the server's view
-//     (opened at HEADERS; closed when both END_STREAMs were seen, or a RST_STREAM from either
-//     side) is below the limit, where the limit is the largest of the last acknowledged value
-//     and all sent-but-unacknowledged values (both modes: a full connection must never get
-//     another stream, whether the client waits or dials);
+//   - StrictMaxConcurrentStreams: before every stream-opening HEADERS the number of streams
+//     open in the server's view (opened at HEADERS; closed when both END_STREAMs were seen, or
+//     a RST_STREAM from either side) is below the limit, where the limit is the largest of the
+//     last acknowledged value and all sent-but-unacknowledged values;
+//   - without strict mode the statement only constrains the pool's choice ("a connection that
+//     is at its limit is not chosen for new requests"), and the choice is made at some point
+//     between the RoundTrip call and the HEADERS. The same count is therefore compared with
+//     the largest limit that was in force on that connection at any time since the request
+//     was started: only then is it certain that the connection was at its limit when it was
+//     chosen. (A stream opened on a connection whose limit the server lowered after the
+//     request was started is counted as an observation, not as a violation.)
 //   - StrictMaxConcurrentStreams: the Transport never dials a second connection while the
 //     first is usable, and at quiescence a request that has not reached the wire while the
 //     connection has a free slot is a violation (extra requests wait, and start when a slot
@@ -55,6 +61,7 @@ func TestVerif_C17(t *testing.T) {
 	defer r.Finish()
 	r.SetRule("one case = one Transport session: 1-40 requests (GET or small POST) through Transport.RoundTrip and its connection pool, strict or non-strict, server limit {unset,0(strict only),1,2,5,100} changed mid-flight by SETTINGS (lowered below the open count, raised), PRNG order of arrivals, server responses, server RST_STREAM, client cancellations (waiting and in flight, with the RST+PING slot accounting), delayed PING acks. non-trivial = session in which the limit was actually reached (a request was seen waiting at quiescence at a full connection, or a full connection forced a further dial); distinct by hash of parameters + per-connection sequence of opened stream ids and open counts")
 	r.Assume("independent frame reader h2ref; open-stream accounting per RFC 9113 5.1/5.1.2 from the server's side; a SETTINGS change binds at the client's ACK, before that the largest candidate value is the limit")
+	r.Assume("without StrictMaxConcurrentStreams the pool chooses the connection at some point between the RoundTrip call and the HEADERS frame; the count oracle then uses the largest limit in force on that connection during that interval")
 	r.Assume("request-to-stream mapping decodes request header blocks with the repository's hpack decoder (bookkeeping only); ClientConn objects of pool-dialed connections are obtained through the transportTestHooks.newclientconn test hook")
 	fpMissing := strings.Contains(os.Getenv("VERIF_FAILPOINT_MISSING"), "transport.beforeWriteHeaders")
 	if fpMissing {
@@ -87,6 +94,8 @@ func TestVerif_C17(t *testing.T) {
 	r.Require("waiting_at_quiescence_conn_full", 100)
 	r.Require("waiting_request_started_after_slot_freed", 100)
 	r.Require("full_conn_refuses_new_request", 50)
+	r.Require("nonstrict_headers_checked_against_limits_since_request_start", 500)
+	r.Require("nonstrict_headers_checked_at_limit_minus_one", 50)
 	r.Require("limit_lowered_below_open_count", 20)
 	r.Require("client_rst_stream", 50)
 	r.Require("sessions_completed", int64(n*9/10))
@@ -137,7 +146,10 @@ func vcliC17Session(r *verifrt.R, c *verifrt.Case, simple bool) {
 	tr := &Transport{StrictMaxConcurrentStreams: p.Strict}
 	s := vcliNewSession(r, c, tr)
 	s.CheckStreams = true
-	s.Strict = true // the per-HEADERS count oracle applies in both modes (see file comment)
+	// The per-HEADERS count oracle of the shared wire monitor (count < current limit) is what
+	// the statement promises in strict mode. Without strict mode the statement speaks about
+	// the pool's choice only; that variant of the oracle is in OnOpen below.
+	s.Strict = p.Strict
 	s.HookNewClientConn()
 	s.Delay.only = "transport.beforeWriteHeaders"
 	hook := s.Delay.Delay
@@ -158,13 +170,6 @@ func vcliC17Session(r *verifrt.R, c *verifrt.Case, simple bool) {
 	}
 	next := 0
 	canceled := map[*vcliReq]bool{}
-	startOne := func() {
-		if next < len(s.Reqs) {
-			s.Start(s.Reqs[next], func(req *http.Request) (*http.Response, error) { return tr.RoundTrip(req) })
-			next++
-		}
-	}
-
 	// per-connection bookkeeping
 	type connInfo struct {
 		greeted   bool
@@ -175,6 +180,21 @@ func vcliC17Session(r *verifrt.R, c *verifrt.Case, simple bool) {
 	}
 	info := map[*vcliSrvConn]*connInfo{}
 	onWire := map[string]int{} // request tag -> number of streams that carried it
+	// Non-strict mode: which limits were in force on each connection since a request started.
+	// limSent: every MAX_CONCURRENT_STREAMS value sent on a connection, in order; reqSnap: per
+	// request, per connection existing when it was started, the most permissive limit then
+	// (acknowledged or in flight) and the length of limSent then. A connection that appears
+	// later starts with no limit at all in the server's view.
+	type limSnap struct {
+		perm int64
+		sent int
+	}
+	limSent := map[*vcliSrvConn][]int64{}
+	reqSnap := map[string]map[*vcliSrvConn]limSnap{}
+	sendLimit := func(sc *vcliSrvConn, v int) {
+		limSent[sc] = append(limSent[sc], int64(v))
+		sc.SendSettings(h2ref.Setting{ID: h2ref.SettingMaxConcurrentStreams, Val: uint32(v)})
+	}
 	waitingSeen := map[string]bool{}
 	reachedLimit := false
 	s.OnNewConn = func(sc *vcliSrvConn) {
@@ -189,6 +209,45 @@ func vcliC17Session(r *verifrt.R, c *verifrt.Case, simple bool) {
 				delete(waitingSeen, st.tag)
 				r.Event("waiting_request_started_after_slot_freed", 1)
 			}
+			if !p.Strict {
+				floor := int64(vcliUnlimited)
+				if sn, ok := reqSnap[st.tag][sc]; ok {
+					floor = sn.perm
+					for _, v := range limSent[sc][sn.sent:] {
+						floor = max(floor, v)
+					}
+				}
+				switch {
+				case int64(st.openCntAtOpen) >= floor:
+					sc.viol("max-concurrent-streams-exceeded",
+						"non-strict mode: HEADERS for stream %d (request %s) while %d streams are open in the server's view; MAX_CONCURRENT_STREAMS has not been above %s on this connection at any time since the request was started (now: %s), so the connection was at its limit when it was chosen for the request",
+						st.id, st.tag, st.openCntAtOpen, vcliLim(floor), vcliLim(st.limitAtOpen))
+				case int64(st.openCntAtOpen) >= st.limitAtOpen:
+					// chosen under an earlier, higher limit (the statement does not exclude that)
+					r.Event("observation_nonstrict_stream_opened_after_limit_was_lowered", 1)
+				case floor == vcliUnlimited:
+					// the connection had no limit at some time since the request started (e.g. it
+					// was dialed for this request): nothing can be concluded
+					r.Event("nonstrict_headers_without_limit_since_request_start", 1)
+				default:
+					r.Event("nonstrict_headers_checked_against_limits_since_request_start", 1)
+					if int64(st.openCntAtOpen) == floor-1 {
+						r.Event("nonstrict_headers_checked_at_limit_minus_one", 1)
+					}
+				}
+			}
+		}
+	}
+	startOne := func() {
+		if next < len(s.Reqs) {
+			rq := s.Reqs[next]
+			snap := map[*vcliSrvConn]limSnap{}
+			for _, sc := range s.Conns() {
+				snap[sc] = limSnap{perm: sc.Sh.permMaxStreams(), sent: len(limSent[sc])}
+			}
+			reqSnap[rq.Tag] = snap
+			s.Start(rq, func(req *http.Request) (*http.Response, error) { return tr.RoundTrip(req) })
+			next++
 		}
 	}
 	greet := func() {
@@ -202,7 +261,7 @@ func vcliC17Session(r *verifrt.R, c *verifrt.Case, simple bool) {
 				ci.greeted = true
 				if p.Limit >= 0 {
 					ci.curLimit = p.Limit
-					sc.SendSettings(h2ref.Setting{ID: h2ref.SettingMaxConcurrentStreams, Val: uint32(p.Limit)})
+					sendLimit(sc, p.Limit)
 				} else {
 					sc.SendSettings()
 				}
@@ -344,7 +403,7 @@ func vcliC17Session(r *verifrt.R, c *verifrt.Case, simple bool) {
 				ci := info[sc]
 				if ci != nil && ci.curLimit >= 0 && ci.curLimit < 100 && rng.IntN(4) == 0 {
 					ci.curLimit = 100
-					sc.SendSettings(h2ref.Setting{ID: h2ref.SettingMaxConcurrentStreams, Val: 100})
+					sendLimit(sc, 100)
 				}
 				for _, st := range openStreams(sc, true) {
 					if rng.IntN(2) == 0 {
@@ -417,7 +476,7 @@ func vcliC17Session(r *verifrt.R, c *verifrt.Case, simple bool) {
 			if s.Delay.sleepers.Load() > 0 {
 				r.Event("settings_sent_while_headers_delayed", 1)
 			}
-			sc.SendSettings(h2ref.Setting{ID: h2ref.SettingMaxConcurrentStreams, Val: uint32(nl)})
+			sendLimit(sc, nl)
 			r.Event("limit_changes_sent", 1)
 		case a == 15: // server resets a stream
 			if os := openStreams(sc, false); len(os) > 0 {
